@@ -91,6 +91,36 @@ def replay_case(arg):
                     fail('TableIsApplied', 'table', dict(holder=name, got=t, expected=exp_table, use_protocol=use_protocol))
                 if (df is None) != (not exp_table):
                     fail('TableIsApplied', 'none_iff_empty', dict(holder=name, got=None if df is None else len(df)))
+            # ---- (i') the regimen set THROUGH the predictive models' own set_dosing_regimen: every holder, and every
+            # member of an averaged model, reports the specification's table afterwards
+            if not use_protocol:
+                import xarray as xr
+
+                def undosed():
+                    m_ = chi.PKPDModel(path)
+                    m_.set_administration('global', amount_var=target, direct=direct)
+                    return chi.PredictiveModel(m_, [chi.GaussianErrorModel()] * m_.n_outputs())
+
+                def posterior_over(p_):
+                    ds = xr.Dataset({n_: (('chain', 'draw', 'individual'), np.full((1, 2, 1), 0.5 + 0.1 * k_))
+                                     for k_, n_ in enumerate(p_.get_parameter_names())},
+                                    coords={'chain': [0], 'draw': [0, 1], 'individual': ['a']})
+                    return chi.PosteriorPredictiveModel(p_, ds)
+                via = [('PredictiveModel.set_dosing_regimen', undosed())]
+                via.append(('PosteriorPredictiveModel.set_dosing_regimen', posterior_over(undosed())))
+                members = [posterior_over(undosed()) for _ in range(3)]
+                via.append(('PAMPredictiveModel.set_dosing_regimen', chi.PAMPredictiveModel(members, weights=[1, 1, 2])))
+                for name, h in via:
+                    h.set_dosing_regimen(dose, start=start, duration=dur, period=period, num=num)
+                    parts = [(name, h)] + ([('%s member %d' % (name, q + 1), mem) for q, mem in enumerate(members)]
+                                           if name.startswith('PAM') else [])
+                    for pname, ph in parts:
+                        with warnings.catch_warnings():
+                            warnings.simplefilter('ignore', FutureWarning)
+                            t = _table(ph.get_dosing_regimen(final))
+                        cnt['evaluations'] = cnt.get('evaluations', 0) + 1
+                        if t != exp_table:
+                            fail('TableIsApplied', 'table_set_through_holder', dict(holder=pname, got=t, expected=exp_table))
             # ---- (ii) what the simulated system receives ------------------------------------
             names = model.parameters()
             x0 = {'global.xa': 0.5, 'global.xb': 0.25, 'dose.drug_amount': 0.0, 'dose.absorption_rate': 1.3, 'global.ka': 0.0}
